@@ -129,7 +129,42 @@ def native_replay(rep):
                 return {"confirmed": True, "observed": o_["detail"], "found_by": f"two-thread schedules ({o_['cases']} cases)"}
         except (IndexError, ValueError):
             pass
+    if "._digest_" in str(rep.get("obligation", "")):
+        # the per-type digesters: one item of every type with every content shape (incl. a resource whose cleanup raises), digested once or twice
+        from operon_ai.organelles.lysosome import Lysosome, Waste, WasteType
+
+        class _Res:
+            def __init__(self, bad):
+                self.bad = bad
+
+            def cleanup(self):
+                if self.bad:
+                    raise RuntimeError("cleanup failed")
+        contents = [None, "x", {"raw_input": "r" * 300, "error": ValueError("e")}, {"error_type": "T", "context": {"k": 1}}, {"raw_input": 5},
+                    _Res(False), _Res(True)]
+        for wt in list(WasteType):
+            for ci, content in enumerate(contents):
+                for rounds in (1, 2):
+                    l = Lysosome(max_queue_size=4, auto_digest_threshold=100, silent=True)
+                    l.ingest(Waste(waste_type=wt, content=content))
+                    errs = 0
+                    for _ in range(rounds):
+                        errs += len(l.digest().errors)
+                    st = (l._total_ingested, len(l._queue), l._total_digested, errs)
+                    if st[0] != st[1] + st[2] + st[3]:
+                        return {"confirmed": True, "found_by": "one item per waste type x content shape, digested once or twice",
+                                "observed": f"{wt.name} item with content#{ci} ({type(content).__name__}) after {rounds} digest call(s): "
+                                            f"{st[0]} ingested but {st[1]} queued + {st[2]} digested + {st[3]} digestion errors"}
     n, bad = c13_bounded.search(3)
     if bad is None:
         return {"confirmed": False, "observed": f"no failing history among {n} enumerated (depth 3)"}
     return {"confirmed": True, "observed": bad, "found_by": f"bounded history enumeration ({n} cases)"}
+
+
+# ---- the remaining default digesters: whatever they extract, they are not an entry to the queue or the accounting -- an item being digested is
+# never put back (it would be queued and counted as digested at once) and no counter moves; failures of a resource's own cleanup stay inside
+NOQ = {"digester-leaves-queue-and-accounting-alone": "len(self._queue) == len(old(self)._queue) and self._total_ingested == old(self)._total_ingested "
+                                                     "and self._total_digested == old(self)._total_digested"}
+contract(T + "._digest_orphaned", "C13", params={"waste": "obj:Waste"}, options={"opaque_any_methods": True}, raises=[], ensures=dict(NOQ, **{"nothing-recycled": "len(result) == 0"}))
+contract(T + "._digest_misfolded", "C13", params={"waste": "obj:Waste"}, options={"opaque_any_methods": True}, raises=["Exception"], ensures=NOQ)
+contract(T + "._digest_failed_op", "C13", params={"waste": "obj:Waste"}, options={"opaque_any_methods": True}, raises=["Exception"], ensures=NOQ)
